@@ -27,10 +27,14 @@ open Crd Crd.Generated Crd.Props.C13 Crd.Props.C14
 /-- site (regenerated spelling) and how it is accounted for -/
 def expectedSites : List (String × String) :=
   [("chansend input/ast/iter_visitor.go IterVisitor.send", "one producer, one consumer, FIFO channel: document order (assumed of Go channels; repeat stream)"),
+   ("collect op/circle.go CircleMember.Head slices.Collect(maps.Values(c.scales))", "unused by any command"),
+   ("collect op/circle.go CircleMember.Keys slices.Collect(maps.Keys(c.scales))", "feeds a Set (membership only) or chain_order_irrelevant"),
    ("env op/circle.go CircleMember.Head maps.Values", "unused by any command"),
    ("env op/circle.go CircleMember.Keys maps.Keys", "feeds a Set (membership only) or chain_order_irrelevant"),
    ("env op/op.go Meta.MarshalYAML maps.Keys", "meta_marshal_order_irrelevant (the keys are sorted before use)"),
    ("go input/ast/iter_visitor.go IterVisitor.All", "single producer goroutine of the channel above"),
+   ("mapcall cmd/info.go infoKeyCmdConv result.Keys().All", "listings_sorted"),
+   ("mapcall op/circle.go KeyConversionChain.Convert m.Keys().All", "chain_order_irrelevant"),
    ("range-chan input/ast/iter_visitor.go IterVisitor.All s.nodeC", "FIFO consumer"),
    ("range-chan input/ast/iter_visitor.go IterVisitor.All s.nodeC", "drain on early exit"),
    ("range-func astconv/validate.go ASTTypeClassifier.Classify ast.NewIterVisitor().All()", "consumes the FIFO channel in document order"),
